@@ -115,12 +115,15 @@ double lin_sqrt(double x)
 }
 double lin_atan2(double y, double x)
 {
-  __CPROVER_assert(G.natan2 < 2, "at most two atan2 calls per linearization");
-  double r = P.atan2_ret[G.natan2];
+  /* bearing.cpp calls sqrt first and atan2 only for d >= 1e-6: the symbol index is the number of the bearing
+     (= sqrt calls so far - 1), a constant at every call site, not the number of atan2 calls */
+  const int i = G.nsqrt - 1;
+  __CPROVER_assert(0 <= i && i < 2 && G.natan2 <= i, "atan2 is called at most once per bearing, after its sqrt");
+  double r = P.atan2_ret[i];
   __CPROVER_assume(-M_PI <= r && r <= M_PI); /* assumed libm contract */
-  G.atan2_y[G.natan2] = y;
-  G.atan2_x[G.natan2] = x;
-  G.natan2++;
+  G.atan2_y[i] = y;
+  G.atan2_x[i] = x;
+  G.natan2 = i + 1;
   return r;
 }
 double lin_sin(double x)
